@@ -225,7 +225,9 @@ func (fc *FuncCtx) atAsserts(c *ssa.CallCommon, args []TV, st *State, reach stri
 		if err := catchTr(fmt.Sprintf("%s at-rule %d", t.fnName, i), func() { tt = env.trBool(r.C.E) }); err != nil {
 			panic(trErr(err.Error()))
 		}
+		fc.curEnv = env
 		fc.oblige(fmt.Sprintf("at@%s#%d", key, site), clauseLabel(r.C, i), reach, tt, "assertion at call to "+key+": "+r.C.Src, r.C.Tags)
+		fc.curEnv = nil
 	}
 }
 
